@@ -62,4 +62,16 @@ theorem src_traits_rs_fn_hour12 : C07_src_traits_rs_fn_hour12 =
 theorem src_traits_rs_fn_num_seconds_from_midnight : C07_src_traits_rs_fn_num_seconds_from_midnight =
     ["&", "self", "->", "u32", "self", "hour(", "*", "3600", "+", "self", "minute(", "*", "60", "+", "self", "second("] := by decide +kernel
 
+/-- callee src/offset/fixed.rs:fn local_minus_utc -/
+theorem callee_src_offset_fixed_rs_fn_local_minus_utc : C07_callee_src_offset_fixed_rs_fn_local_minus_utc =
+    ["&", "self", "->", "i32", "self", "v1"] := by decide +kernel
+
+/-- callee src/time_delta.rs:fn num_seconds -/
+theorem callee_src_time_delta_rs_fn_num_seconds : C07_callee_src_time_delta_rs_fn_num_seconds =
+    ["&", "self", "->", "i64", "if", "self", "v1", "<", "0", "&&", "self", "v2", ">", "0", "self", "v1", "+", "1", "else", "self", "v1"] := by decide +kernel
+
+/-- callee src/time_delta.rs:fn subsec_nanos -/
+theorem callee_src_time_delta_rs_fn_subsec_nanos : C07_callee_src_time_delta_rs_fn_subsec_nanos =
+    ["&", "self", "->", "i32", "if", "self", "v1", "<", "0", "&&", "self", "v2", ">", "0", "self", "v2", "-", "NANOS_PER_SEC", "else", "self", "v2"] := by decide +kernel
+
 end Chrono.Pins.C07
